@@ -77,6 +77,14 @@ fn gen_chain(t: &mut Tape) -> Chain {
         specs.push(k);
     }
     let missing_end = t.chance(1, 5);
+    if missing_end {
+        // a knot that ends in an (empty) gather is closed by the compiler with an implicit
+        // `done`; only a knot that ends in plain content runs out of content
+        if let Some(last) = specs.last_mut() {
+            last.choice = false;
+            last.choice_warn = false;
+        }
+    }
     for i in 0..n {
         src.push_str(&format!("VAR dv{i} = {}\n", 3 + i));
     }
@@ -228,9 +236,22 @@ pub fn exec(case: &J, acc: &mut Acc) -> Result<(), Fail> {
         let mut total_msgs = 0usize;
         let mut segment = 0;
         let mut steps = 0;
+        let mut jumped = false;
+        let mut segment_start: usize = 0;
         'outer: while steps < 60 {
             steps += 1;
             if h.story.can_continue() {
+                // sometimes the host jumps ahead on its own (path jump with call-stack reset)
+                if steps > 1 && next_policy(7) == 0 && furthest_line >= 0 && (furthest_line as usize) + 1 < n {
+                    let span = n - 1 - furthest_line as usize;
+                    let target = furthest_line as usize + 1 + (next_policy(span as u64) as usize);
+                    h.apply(&HostOp::ChoosePath { path: format!("s{target}"), reset: true, args: vec![] });
+                    furthest_line = -1;
+                    segment += 1;
+                    segment_start = target;
+                    jumped = true;
+                    continue;
+                }
                 h.log.borrow_mut().clear();
                 let warnings_before = h.story.get_current_warnings().len();
                 let r = h.story.cont();
@@ -327,6 +348,7 @@ pub fn exec(case: &J, acc: &mut Acc) -> Result<(), Fail> {
                             return Err(Ok(fail("reset-keeps-messages", format!("after reset_state: errors {:?} warnings {:?}", h.story.get_current_errors(), h.story.get_current_warnings()))));
                         }
                         segment += 1;
+                        segment_start = 0;
                         furthest_line = -1;
                         if segment > 2 {
                             break 'outer;
@@ -345,6 +367,7 @@ pub fn exec(case: &J, acc: &mut Acc) -> Result<(), Fail> {
                         // sites between the failing knot and the target are skipped, not passed
                         furthest_line = -1;
                         segment += 1;
+                        segment_start = target;
                     }
                 }
             } else {
@@ -361,16 +384,27 @@ pub fn exec(case: &J, acc: &mut Acc) -> Result<(), Fail> {
         let seg = segment;
         if furthest_line >= 0 {
             for (w, k) in &warns {
-                let passed = (*k as i64) < furthest_line;
+                // only sites of knots the story went through in this segment
+                let passed = *k >= segment_start && (*k as i64) < furthest_line;
                 if passed && delivered.get(&format!("{seg}:W:{w}")).copied().unwrap_or(0) != 1 {
-                    // only sites reachable in this segment: the segment started at knot 0 unless redirected
-                    if seg == 0 || !handler {
-                        return Err(Ok(fail("not-delivered", format!("the story got past knot s{k} (line {furthest_line} delivered) but the warning about '{w}' was never delivered"))));
-                    }
+                    return Err(Ok(fail("not-delivered", format!("the story got past knot s{k} (line {furthest_line} delivered, segment started at s{segment_start}) but the warning about '{w}' was never delivered"))));
                 }
             }
         }
-        let _ = (reached_end, missing_end);
+        // a chain whose last knot forgot its END must report running out of content when the
+        // story gets there, however it got there (normal flow, redirect or path jump)
+        if reached_end
+            && missing_end
+            && n > 0
+            && furthest_line == n as i64 - 1
+            && !errs.contains(&(n - 1))
+            && delivered.get(&format!("{seg}:E:end")).copied().unwrap_or(0) != 1
+        {
+            return Err(Ok(fail(
+                "not-delivered",
+                format!("the story ran out of content in its last knot (no END) but no error was delivered (after a path jump: {jumped})"),
+            )));
+        }
         Ok((total_msgs, continues_after_first_msg))
     });
     match r {
@@ -388,6 +422,24 @@ pub fn exec(case: &J, acc: &mut Acc) -> Result<(), Fail> {
             Ok(())
         }
     }
+}
+
+/// the two cases (with / without handler) a tape stands for
+pub fn cases_from_tape(tape: &[u16]) -> Vec<J> {
+    let mut t = Tape::new(tape);
+    let chain = gen_chain(&mut t);
+    let policy: Vec<u64> = (0..16).map(|_| t.next() as u64).collect();
+    [true, false]
+        .iter()
+        .map(|handler| {
+            json!({
+                "source": chain.src, "knots": chain.n, "missing_end": chain.missing_end,
+                "warns": chain.warns.iter().map(|(w, k)| json!([w, k])).collect::<Vec<_>>(),
+                "errs": chain.errs, "policy": policy, "handler": handler,
+                "old_version": tape.first().map(|v| v % 5 == 0).unwrap_or(false),
+            })
+        })
+        .collect()
 }
 
 pub fn run(env: &Env) -> i32 {
@@ -421,16 +473,7 @@ pub fn run(env: &Env) -> i32 {
         n,
         || proptest::collection::vec(proptest::num::u16::ANY, 0..200),
         |tape: &Vec<u16>, acc: &mut Acc| {
-            let mut t = Tape::new(tape);
-            let chain = gen_chain(&mut t);
-            let policy: Vec<u64> = (0..12).map(|_| t.next() as u64).collect();
-            for handler in [true, false] {
-                let case = json!({
-                    "source": chain.src, "knots": chain.n, "missing_end": chain.missing_end,
-                    "warns": chain.warns.iter().map(|(w, k)| json!([w, k])).collect::<Vec<_>>(),
-                    "errs": chain.errs, "policy": policy, "handler": handler,
-                    "old_version": tape.first().map(|v| v % 5 == 0).unwrap_or(false),
-                });
+            for case in cases_from_tape(tape) {
                 acc.sample(|| case.clone());
                 exec(&case, acc)?;
             }
